@@ -43,18 +43,21 @@ func c01Judge(k c01Case) *vlib.Failure {
 		if got != want {
 			return vlib.Failf("after inserting %q in this order, Contains(%q)=%t (origin parsed=%t) but the patterns denote it: %t", k.Patterns, k.Origin, got, ok, want)
 		}
-	case "api", "api-no-psl-switch":
+	case "api", "api-no-psl-switch", "api-credentialed", "api-pna":
 		all := false
 		for _, p := range k.Patterns {
 			if p == "*" {
 				all = true
 			}
 		}
-		cfg := cors.Config{Origins: k.Patterns, ExtraConfig: cors.ExtraConfig{DangerouslyTolerateSubdomainsOfPublicSuffixes: k.Via == "api"}}
+		cfg := cors.Config{Origins: k.Patterns, ExtraConfig: cors.ExtraConfig{DangerouslyTolerateSubdomainsOfPublicSuffixes: k.Via != "api-no-psl-switch"}}
+		// (which origins are allowed is decided by Origins alone: credentials and private-network access only restrict
+		// which lists are acceptable)
+		cfg.Credentialed, cfg.PrivateNetworkAccess = k.Via == "api-credentialed", k.Via == "api-pna"
 		m, err := cors.NewMiddleware(cfg)
 		if err != nil {
 			if k.Via != "api" {
-				return nil // the list needs the switch
+				return nil // the list needs a switch that this variant does not set
 			}
 			return vlib.Failf("list of valid patterns %q rejected: %v", k.Patterns, err)
 		}
@@ -647,6 +650,30 @@ func checkC01(c *vlib.Ctx) (string, string) {
 			c.States.Add(total)
 			c.Evaluations.Add(total * int64(len(f6.probes)))
 			famInfo[f6.name] = map[string]any{"patterns": len(f6.patterns), "probes": len(f6.probes), "sequences": total, "length": depth, "note": "stateless; sequences with repeated patterns cover the shorter lengths"}
+		}
+	}
+	// API pass with credentials / private-network access: hosts that the security rules treat specially (localhost and
+	// its subdomains, loopback addresses) next to ordinary ones, all ordered lists of one and two patterns
+	{
+		pats := []string{"http://*.localhost:3000", "http://localhost:3000", "http://*.localhost", "https://*.localhost:*", "http://127.0.0.1:*", "http://[::1]:9", "https://a.b", "https://*.a.b", "http://localhost"}
+		probes := []string{"http://app.localhost:3000", "http://api.app.localhost:3000", "http://localhost:3000", "http://app.localhost", "https://app.localhost:8", "http://127.0.0.1:8", "http://127.0.0.2:8", "http://[::1]:9", "http://[::1]:8",
+			"https://a.b", "https://x.a.b", "http://x.a.b", "http://localhost", "http://notlocalhost:3000", "http://app.localhost:3001"}
+		for _, via := range []string{"api-credentialed", "api-pna", "api"} {
+			for i := range pats {
+				for j := -1; j < len(pats); j++ {
+					list := []string{pats[i]}
+					if j >= 0 {
+						if j == i {
+							continue
+						}
+						list = append(list, pats[j])
+					}
+					for _, o := range probes {
+						c.Transitions.Add(4)
+						ck.Try(c01Case{list, o, via})
+					}
+				}
+			}
 		}
 	}
 	// API pass: all ordered lists over the union of F1-F3 plus "*"
